@@ -18,7 +18,7 @@ pub fn props() -> Vec<Prop> {
         id: "C04",
         run: c04,
         tools: Some(miri_step),
-        rule: "(1) controlled scheduler over the guard hook: real threads run the real Memfs, one runnable at a time, yield points at the start of every call and before every guard acquisition made while holding no guard; every schedule of every small program is enumerated depth-first by re-execution (quick: all 2-thread x 1-call programs over the ~45-call alphabet + seeded 2x2 / 3x1 / 2x3 programs; thorough: + 3x2 programs and more seeds; schedule cap 4000 per program, a cap hit is inconclusive). Each execution is checked for linearizability against SEQUENTIAL MEMFS ITSELF (some order of the calls respecting program order and real-time precedence gives every call the same result and the same final snapshot), append exactly-once (unique tokens), nested guard acquisition, panics / poisoned lock, and the C03 walker at quiescence. (2) free-running stress: the same programs and 8-thread mixes released by a barrier on 16 cores, stamped by a global atomic clock, same checks, plus a wait-state monitor fed by the guard events (all threads inside before-acquire..release with no guard event for 30 s = deadlock certificate); the evidence counts how many call pairs really overlapped. (3) Miri (-Zmiri-many-seeds) on a hook-free executor: data races, deadlocks, UB under its own randomised preemption. distinct_nontrivial = distinct (program shape, operation multiset, linearizable?) tuples + distinct schedules. Later additions to the alphabet: relative-path calls next to the calls that move the cwd; children for the directory that remove() takes away. An execution in which a multi-entry call failed half way (other than DoesNotExist) is not judged for linearizability (counted). Metadata queries racing against a move that replaces the file by one with other ids and another mode; handle opens that always fail; directed handle life-cycle programs (a write()/append() handle against pairs of calls that remove its file or put a link, a directory or another file in its place) - executions with an open handle are judged on returning, panics, poisoning and integrity, not on linearizability.",
+        rule: "(1) controlled scheduler over the guard hook: real threads run the real Memfs, one runnable at a time, yield points at the start of every call and before every guard acquisition made while holding no guard; every schedule of every small program is enumerated depth-first by re-execution (quick: all 2-thread x 1-call programs over the ~45-call alphabet + seeded 2x2 / 3x1 / 2x3 programs; thorough: + 3x2 programs and more seeds; schedule cap 4000 per program, a cap hit is inconclusive). Each execution is checked for linearizability against SEQUENTIAL MEMFS ITSELF (some order of the calls respecting program order and real-time precedence gives every call the same result and the same final snapshot), append exactly-once (unique tokens), nested guard acquisition, panics / poisoned lock, and the C03 walker at quiescence. (2) free-running stress: the same programs and 8-thread mixes released by a barrier on 16 cores, stamped by a global atomic clock, same checks, plus a wait-state monitor fed by the guard events (all threads inside before-acquire..release with no guard event for 30 s = deadlock certificate); the evidence counts how many call pairs really overlapped. (3) Miri (-Zmiri-many-seeds) on a hook-free executor: data races, deadlocks, UB under its own randomised preemption. distinct_nontrivial = distinct (program shape, operation multiset, linearizable?) tuples + distinct schedules. Later additions to the alphabet: relative-path calls next to the calls that move the cwd; children for the directory that remove() takes away. An execution in which a multi-entry call failed half way (other than DoesNotExist) is not judged for linearizability (counted). Metadata queries racing against a move that replaces the file by one with other ids and another mode; handle opens that always fail; directed handle life-cycle programs (a write()/append() handle against pairs of calls that remove its file or put a link, a directory or another file in its place) - executions with an open handle are judged on returning, panics, poisoning and integrity, not on linearizability; a free-running round of append handles dropped unflushed under real lock contention (every record exactly once).",
         assumptions: &[
             "guard-boundary granularity is complete as long as all shared state stays behind read_guard/write_guard (cross-checked by Miri's race detector)",
             "the sequential specification is Memfs itself, so C04 does not depend on the reference model of C01",
@@ -383,7 +383,83 @@ fn explore_program(program: &[Vec<Op>], chk: &mut Checker, rep: &mut Report, cap
     }
 }
 
+/// Handles that are DROPPED with unflushed bytes while other threads keep the lock busy: the drop is the write-back
+/// ("write/append handles write back under a fresh write guard at flush/drop"), so every record written through an
+/// append handle is in the file exactly once afterwards - a drop that does not wait for the lock loses records. Plain
+/// threads (the guard hook ignores them), real contention, a few rounds.
+fn handle_drop_stress(ctx: &Ctx, rep: &mut Report) {
+    let rounds = if ctx.thorough { 12 } else { 3 };
+    for round in 0..rounds {
+        rep.eval();
+        let mem = Memfs::new();
+        let _ = mem.mkdir_p("/hd");
+        let _ = mem.write_all("/hd/log", b"");
+        let (appenders, per) = (4usize, 120usize);
+        set_case("conc:handle-drop-stress:every-call-returns→deadlock-or-hang", &format!("round {}", round));
+        let busy = std::sync::atomic::AtomicBool::new(true);
+        std::thread::scope(|sc| {
+            for w in 0..6 {
+                let (m, busy) = (&mem, &busy);
+                sc.spawn(move || {
+                    let block = vec![b'w'; 64 * 1024];
+                    let path = format!("/hd/busy{}", w);
+                    while busy.load(Ordering::Relaxed) {
+                        let _ = m.write_all(&path, &block);
+                        let _ = m.read_all(&path);
+                    }
+                });
+            }
+            let hs: Vec<_> = (0..appenders)
+                .map(|a| {
+                    let m = &mem;
+                    sc.spawn(move || {
+                        for i in 0..per {
+                            if let Ok(mut h) = m.append("/hd/log") {
+                                use std::io::Write;
+                                let _ = h.write_all(format!("<r{}-{}-{}>", round, a, i).as_bytes());
+                                std::thread::yield_now();
+                                drop(h); // no flush: the drop delivers
+                            }
+                        }
+                    })
+                })
+                .collect();
+            for h in hs {
+                let _ = h.join();
+            }
+            busy.store(false, Ordering::Relaxed);
+        });
+        let content = match exec(&mem, &Op::ReadBytes("/hd/log".into())) {
+            Res::Bytes(b) => String::from_utf8_lossy(&b).to_string(),
+            other => format!("{:?}", other.short()),
+        };
+        let (mut lost, mut dup) = (0, 0);
+        for a in 0..appenders {
+            for i in 0..per {
+                match content.matches(&format!("<r{}-{}-{}>", round, a, i)).count() {
+                    0 => lost += 1,
+                    1 => {},
+                    _ => dup += 1,
+                }
+            }
+        }
+        rep.count("records_written_through_dropped_handles", (appenders * per) as u64);
+        rep.key_str("stress|handle-drop");
+        let snap = mem.verif_snapshot();
+        if lost > 0 || dup > 0 {
+            rep.violation(
+                &format!("conc:handle-drop-stress:every-record-of-a-dropped-append-handle-present-exactly-once→{}", if lost > 0 { "lost" } else { "duplicated" }),
+                J::obj(vec![("records", J::Int((appenders * per) as i64)), ("lost", J::Int(lost)), ("duplicated", J::Int(dup)), ("workload", J::s("4 threads x 120 append handles (write, drop without flush) on one file, 6 threads rewriting 64 KiB files"))]),
+            );
+        }
+        if snap.poisoned || !check_invariants(&snap).is_empty() {
+            rep.violation("conc:handle-drop-stress:tree-integrity-at-quiescence→broken", J::s(format!("{:?}", check_invariants(&snap))));
+        }
+    }
+}
+
 fn stress(ctx: &Ctx, rep: &mut Report, chk: &mut Checker) {
+    handle_drop_stress(ctx, rep);
     let alpha = alphabet();
     let mut rng = ctx.rng("c04-stress");
     let epochs = if ctx.thorough { 60_000 } else { 3_000 } / ctx.shards;
